@@ -16,7 +16,7 @@ TOL = 1e-11
 
 
 def plan(tier):
-    n = 480 if tier == 'quick' else 8000
+    n = 480 if tier == 'quick' else 6000
     return dict(sanitize={'extensions': ['compmech.panel.models.clt_bardell_field', 'compmech.panel.models.clt_bardell_field_w'], 'n_cases': 160}, n_cases=n, shards=16, min_nontrivial=n // 3,
                 min_tags={'obj:panel': n // 3, 'obj:assembly': n // 12, 'obj:bay': n // 12, 'NLterms:on': n // 8, 'NLterms:off': n // 8,
                           'model:cpanel': n // 10, 'model:plate_w': n // 30},
